@@ -1,7 +1,7 @@
 (* C08 - Buffers never exceed capacity; ordered buffers release jobs in discipline order. *)
 From Coq Require Import List ZArith Bool.
-From JSL Require Import Base.Res SM.Types SM.Util SM.Handler SM.Step SM.Middleware SM.Inv SM.Example
-  SMP.Reflect SMP.StepInv SMP.Main Gen.Kernels Gen.KernelsEq.
+From JSL Require Import Base.Res Base.ListX SM.Types SM.Util SM.Handler SM.Step SM.Middleware SM.Inv SM.Example
+  SMP.Reflect SMP.StepInv SMP.Main SMP.WF SMP.Feasible SMP.Post SMP.StoreEff SMP.Release SM.Events Gen.Kernels Gen.KernelsEq.
 Import ListNotations.
 
 (* no buffer (standalone, pre/internal/post, AGV) ever holds more jobs than its configured capacity:
@@ -37,3 +37,51 @@ Print Assumptions C08_release_rule_is_the_code's.
 Theorem C08_next_job_is_the_code's : forall b ty, gen_next_job (b_store b) ty = get_next_job_from_buffer b ty.
 Proof. exact gen_next_job_eq. Qed.
 Print Assumptions C08_next_job_is_the_code's.
+
+(* ---------- discipline order ---------- *)
+(* the AGV side, every applied -> TRANSIT transition of every run (it is a fact about one transition, whatever the state):
+   either the claimed job is not at the position the buffer's discipline releases and the AGV keeps waiting - nothing moves -,
+   or the job taken is at the release position and leaves; it joins the AGV's buffer at the back *)
+Theorem C08_agv_takes_only_the_released_job :
+  forall sigma i x tr t ts x',
+    nth_error (s_trans x) t = Some ts -> h_t_to_transit sigma i x tr t ts = Ok x' ->
+    exists j jb sb sc,
+      tr_job tr = Some j /\ nth_error (s_jobs x) j = Some jb /\ get_buf x (j_loc jb) = Some sb /\ get_bcfg i (j_loc jb) = Some sc
+      /\ ((exists p, index_of j (b_store sb) = Some p /\ is_correct_position (Some p) (length (b_store sb)) (bc_type sc) = Ok false
+                     /\ h_t_waiting_waiting i x tr t ts = Ok x')
+          \/ (forall p, index_of j (b_store sb) = Some p -> is_correct_position (Some p) (length (b_store sb)) (bc_type sc) = Ok true)).
+Proof.
+  intros sigma i x tr t ts x' Hts H.
+  destruct (post_to_transit sigma i _ _ _ _ _ Hts H) as [j [jb [sb [sc [A [B [C [D [[p E]|[dst [c [trv [E _]]]]]]]]]]]]].
+  - exists j, jb, sb, sc. repeat split; auto. left. eauto.
+  - exists j, jb, sb, sc. repeat split; auto.
+Qed.
+Print Assumptions C08_agv_takes_only_the_released_job.
+
+(* the machine side (SMP/Release.v). (a) where the simulator creates an IDLE -> SETUP transition it names the job at the release
+   position of the machine's pre-buffer (head for FIFO/DUMMY, last for LIFO) *)
+Theorem C08_created_machine_start_names_the_released_job :
+  forall i now m ms tr, timed_machine i now m ms = Ok (Some tr) -> tr_new tr = NM MSetup ->
+    exists c j, get_bcfg i (BPre m) = Some c /\ tr = mkTr (CM m) (NM MSetup) (Some j)
+                /\ at_release_position j (b_store (m_pre ms)) (bc_type c) = true.
+Proof. exact created_start_names_released_job. Qed.
+Print Assumptions C08_created_machine_start_names_the_released_job.
+
+(* (b) until it is applied only transitions of OTHER machines are applied (create_timed_transitions lists the machines'
+   transitions first), and those leave the pre-buffer as it is *)
+Theorem C08_pre_buffer_untouched_by_other_machines :
+  forall sigma i x tr0 x' m0 m,
+    apply_transition sigma i x tr0 = Ok x' -> tr_comp tr0 = CM m0 -> m0 <> m -> bst x' (BPre m) = bst x (BPre m).
+Proof. exact other_machine_leaves_pre_buffer. Qed.
+Print Assumptions C08_pre_buffer_untouched_by_other_machines.
+
+(* (c) the agent is only ever offered a machine start from an UNORDERED pre-buffer: offers are computed when
+   create_timed_transitions has nothing left, and then no idle machine has a non-empty ordered pre-buffer *)
+Theorem C08_offered_machine_start_only_for_unordered_pre_buffer :
+  forall i x offers m j,
+    wfs_b i x = true -> FE i x -> create_timed_transitions i x = Ok [] -> get_possible_transitions i x = Ok offers ->
+    In (mkTr (CM m) (NM MSetup) (Some j)) offers ->
+    exists ms c, nth_error (s_machs x) m = Some ms /\ get_bcfg i (BPre m) = Some c /\ bc_type c = Flex
+                 /\ at_release_position j (b_store (m_pre ms)) (bc_type c) = true.
+Proof. intros i x offers m j W. apply offered_start_only_for_unordered_pre_buffer. apply WFS_complete; auto. Qed.
+Print Assumptions C08_offered_machine_start_only_for_unordered_pre_buffer.
